@@ -2,7 +2,7 @@
     exercise both sides of every equivalence. *)
 From Coq Require Import List Bool Arith ZArith Lia Cantor.
 Import ListNotations.
-Require Import Nib.C11.Model Nib.C11.Spec Nib.C11.Proofs.
+Require Import Nib.C11.Model Nib.C11.Spec Nib.C11.Proofs Nib.C11.ProofsPreimage.
 
 (** an injective stand-in for the hash *)
 Definition Hx (salt rates v : nat) : nat := Cantor.to_nat (salt, Cantor.to_nat (rates, v)).
@@ -129,3 +129,50 @@ Proof.
   exists {| p_hash := Hx 2 1 2; p_submit := 16%Z; p_origin := 9 |}.
   split; [vm_compute; reflexivity|]. split; [reflexivity|]. split; vm_compute; reflexivity.
 Qed.
+
+(* ------------------------------------------------------------------ the hash preimage is exact *)
+
+(** salt ids: 1 = "ab", 2 = "ab " (trailing blank), 3 = " ab", 4 = "AB"; rate-string ids:
+    1 = "(ubtc:uusd,20000.5)", 2 = the same followed by a newline.  [pi_trim] is what
+    strings.TrimSpace on both fields does to these ids (the seeded variant
+    C11-hash-trims-salt-whitespace); [pi_fold] is a case fold of the salt. *)
+Definition pi_trim : preimage := {| pi_salt := norm_of [(2, 1); (3, 1)]; pi_rates := norm_of [(2, 1)] |}.
+Definition pi_fold : preimage := {| pi_salt := norm_of [(4, 1)]; pi_rates := fun x => x |}.
+
+Definition commit_ab_reveal_ab_blank : list event :=
+  [ (1%Z, Prevote 0 0 (Hx 1 1 0) true); (2%Z, Vote 0 0 2 1 7 true true) ].
+Definition commit_ab_blank_reveal_ab_blank : list event :=
+  [ (1%Z, Prevote 0 0 (Hx 2 1 0) true); (2%Z, Vote 0 0 2 1 7 true true) ].
+
+Definition outcomes_pi (pi : preimage) (evs : list event) : list bool :=
+  map (fun x => accepted (fst x)) (run_pi pi Hx 0 all_bonded evs).
+
+(** the exact model: a reveal that differs in one trailing blank is refused, the exact reveal accepted *)
+Example exact_preimage_nonvacuous :
+  outcomes_pi pi_exact commit_ab_reveal_ab_blank = [true; false] /\
+  outcomes_pi pi_exact commit_ab_blank_reveal_ab_blank = [true; true].
+Proof. split; vm_compute; reflexivity. Qed.
+
+(** the trimming variant does the opposite on both histories, and the checker flags its trace *)
+Example trim_preimage_refuted_nonvacuous :
+  outcomes_pi pi_trim commit_ab_reveal_ab_blank = [true; true] /\
+  outcomes_pi pi_trim commit_ab_blank_reveal_ab_blank = [true; false] /\
+  consumed_pi pi_trim Hx 0 all_bonded commit_ab_reveal_ab_blank = [(1, 0)] /\
+  Pb 1 Hx (view_of all_bonded)
+     (otrace_of commit_ab_reveal_ab_blank (run_pi pi_trim Hx 0 all_bonded commit_ab_reveal_ab_blank)) = false.
+Proof. repeat split; vm_compute; reflexivity. Qed.
+
+(** the hypotheses of C11_normalising_preimage_refuted are met by both variants *)
+Example inexact_hypotheses_nonvacuous :
+  (pi_salt pi_trim 2 <> 2 \/ pi_rates pi_trim 1 <> 1) /\ (pi_salt pi_trim 1 <> 1 \/ pi_rates pi_trim 2 <> 2) /\
+  (pi_salt pi_fold 4 <> 4 \/ pi_rates pi_fold 1 <> 1) /\ pi_is_exact pi_exact.
+Proof.
+  split; [left; vm_compute; discriminate|]. split; [right; vm_compute; discriminate|].
+  split; [left; vm_compute; discriminate|]. exact pi_exact_is_exact.
+Qed.
+
+(** the same two histories as they come out of the general witness construction *)
+Example witness_shapes_nonvacuous :
+  commit_normal_reveal_raw pi_trim Hx 2 1 7 = commit_ab_reveal_ab_blank /\
+  commit_raw_reveal_raw Hx 2 1 7 = commit_ab_blank_reveal_ab_blank.
+Proof. split; vm_compute; reflexivity. Qed.
